@@ -251,6 +251,8 @@ class Run:
             for nm, have, pinned in _cas.NAMED_DRIFT:
                 self.spec_drift(f"{nm}/argument_names_changed", f"argument names {have} differ from the pinned interface {pinned}")
             _cas.NAMED_DRIFT.clear()
+            for nm in sorted(getattr(_cas, "APPENDED", ())):
+                self.spec_drift(f"{nm}/results_appended", "the function returns more results than the pinned interface; the pinned ones keep position and name")
             if _cas.STATS.get("named_calls"):
                 self.counts["keyword_calls"] = _cas.STATS["named_calls"]
             if _cas.STATS["probes"] or _cas.STATS["skipped"]:
@@ -322,6 +324,15 @@ def main_wrap(fn):
     except MachineryError as e:
         print("MACHINERY-FAILURE:", e, file=sys.stderr)
         for r in list(Run.live):        # scratch directories of runs that never reached finish()
+            shutil.rmtree(r.workdir, ignore_errors=True)
+        sys.exit(2)
+    except SystemExit:
+        raise
+    except BaseException as e:     # noqa: a crash of the harness is a machinery failure, never a verdict (no exit 1 without a VIOLATION line)
+        import traceback
+        traceback.print_exc()
+        print(f"MACHINERY-FAILURE: unexpected {type(e).__name__} in the harness: {e}", file=sys.stderr)
+        for r in list(Run.live):
             shutil.rmtree(r.workdir, ignore_errors=True)
         sys.exit(2)
     sys.exit(rc)
